@@ -37,6 +37,8 @@ for p in props:
             focus = "FOCUS FOR THIS ATTEMPT: produce a change that needs a history of FOUR OR MORE operations to manifest (state left behind by an earlier rejected / no-op / repeated / undone operation, a counter or flag that only goes wrong on the second cycle, something that works once and fails after remove-and-re-add, reset-and-refill, or close-and-reopen), in a mechanism NONE of the earlier attempts listed below used. Read them carefully and pick an unused one."
     if wave >= 'w16':
         focus = "FOCUS FOR THIS ATTEMPT: produce a change whose breakage needs a SIZE or COUNT threshold to be crossed - it behaves correctly with one or two of something and goes wrong only with THREE TO SIX of them (subscribers, targets, paths in one subscription, updates in one notification, list keys, path elements, queued items, pending duplicates, reconnect attempts, holders of one connection, values in a generator, elements past a preallocated capacity, a counter reaching a small constant, the third repetition of a cycle) - for example a slice that aliases once it grows past its initial capacity, an index that is off by one only from the third element on, a fast path for 'small' inputs whose boundary is wrong, a fixed-size buffer or channel capacity, a loop that stops one short. Keep the threshold SMALL (3 to 6) so that a short test can cross it, and use a mechanism NONE of the earlier attempts listed below used."
+    if wave >= 'w17':
+        focus = "FOCUS FOR THIS ATTEMPT: produce a change whose breakage needs the CONJUNCTION of TWO DIFFERENT kinds of condition at once, each of which alone leaves the behaviour correct: pick two from (1) a non-default option / configuration field / mode / encoding in use, (2) a size or count of three to six of something (subscribers, targets, paths, updates in one notification, keys, queued items, attempts, holders), (3) a particular interleaving of goroutines or a fault / cancellation / time-out at a particular moment, (4) a history of four or more operations (remove-and-re-add, reset-and-refill, close-and-reopen, a rejected operation earlier), (5) an unusual but legal input shape (empty element, wildcard in an odd position, deprecated encoding, origin, atomic, zero or extreme timestamp). Say in your notes which two you combined and show in your demonstration that each one alone does NOT expose the change. Use a mechanism NONE of the earlier attempts listed below used."
     prop_text = json.dumps({k: p[k] for k in ('id','title','statement','quantifier','why_tests_cant','anchors') if k in p}, indent=1)
     txt = f"""You are helping to evaluate a verification framework for the Go repository openconfig/gnmi (reference gNMI implementation: client library, CLI, caching collector with a timestamped path-tree cache and a Subscribe server). You have your OWN scratch git worktree of the repository at {wt} (a detached checkout of the current HEAD). Work ONLY inside {wt} and write your results to {out}/ . Never touch /repo or /verif and do not read anything under /verif.
 
